@@ -121,6 +121,7 @@ def network_simplex(
         state[pred[node]] = 0  # tree arcs are basic whatever their flow
 
     iterations = 0
+    converged = False
 
     while iterations < max_iter:
         iterations += 1
@@ -143,6 +144,7 @@ def network_simplex(
                 entering = arc
 
         if entering == -1:
+            converged = True
             break  # Optimal: no improving arc found
 
         u, v = source[entering], target[entering]
@@ -238,6 +240,11 @@ def network_simplex(
         # Tree arcs are basic whatever their flow (a degenerate tree arc sits at a bound)
         for node in range(n):
             state[pred[node]] = 0
+
+    if not converged:
+        # The pivot budget ran out with improving arcs left: the flow at hand is neither proven optimal nor,
+        # if artificial arcs still carry flow, is the instance proven infeasible
+        return Result(None, float("inf"), iterations, total_arcs, Status.MAX_ITER)
 
     for arc in range(m, total_arcs):
         if flow[arc] > 0:
